@@ -18,6 +18,29 @@ sys.dont_write_bytecode = True
 from engine.report import AnalysisError, Ctx  # noqa: E402
 
 
+def selftest(ctx, prop):
+    """thorough tier: replay the variant catalogue for this property on scratch copies of the current tree"""
+    known = {(k["rule"], k["construct"]) for k in ctx.load_known()}
+    if any((not o.ok) and (o.rule, o.construct) not in known for o in ctx.obs):
+        ctx.extra["selftest"] = "skipped: the tree under analysis already violates this property"
+        return
+    sys.path.insert(0, os.path.join(HERE, "selftest"))
+    import variants
+
+    res = variants.run_for_property(prop, repo=ctx.repo)
+    applied = [r for r in res if r[2] != "n/a"]
+    bad = [r for r in res if r[2] == "FAIL"]
+    ctx.extra["selftest"] = {
+        "variants_applied": len(applied),
+        "not_applicable": len(res) - len(applied),
+        "misbehaved": len(bad),
+        "results": ["%s %s %s: %s" % r for r in res],
+    }
+    ctx.count("selftest_variants_applied", len(applied))
+    if bad:
+        raise AnalysisError("self-test of the analyser failed (an analyser defect, not a property verdict): %s" % "; ".join("%s %s" % (r[1], r[3]) for r in bad[:3]))
+
+
 def main(argv):
     if len(argv) < 2 or argv[1] in ("-h", "--help"):
         print(__doc__)
@@ -61,6 +84,8 @@ def main(argv):
         mod.run(ctx, idx)
         if tier == "thorough" and hasattr(mod, "thorough"):
             mod.thorough(ctx, idx)
+        if tier == "thorough" and not os.environ.get("VERIF_NO_EVIDENCE"):
+            selftest(ctx, prop)
     except AnalysisError as ex:
         err = ex
     except Exception as ex:  # a crash of the analyser is "cannot decide", never a verdict
